@@ -140,6 +140,12 @@ func genBytes(t *rapid.T) []byte {
 			doc = doc[:i]
 		}
 	}
+	if oneIn(t, 8, "fileprefix") {
+		// what editors and tools put in front of a document (and a file reader might strip although the
+		// string parsers do not, or the other way round): byte order marks, blank lines, a shebang
+		pre := []string{"\xef\xbb\xbf", "\xef\xbb\xbf\n", "\xfe\xff", "\xff\xfe", "\n\n", " \t", "#!x\n", "\x00", "\xef\xbb", "//c\n"}[drawIdx(t, 10, "pre")]
+		doc = append([]byte(pre), doc...)
+	}
 	return doc
 }
 
@@ -170,6 +176,9 @@ func GenC04(t *rapid.T) *C04Case {
 		}
 		v.O[0].V = VStr("line1" + eol + "line2") // written raw below
 		doc := RenderJSON(v)
+		if oneIn(t, 4, "bom") {
+			doc = []string{"\xef\xbb\xbf", "\xef\xbb\xbf ", "\xef\xbb\xbf\r\n"}[drawIdx(t, 3, "bomk")] + doc
+		}
 		doc = strings.ReplaceAll(doc, strings.ReplaceAll(strings.ReplaceAll(eol, "\r", "\\u000d"), "\n", "\\u000a"), eol) // raw line break inside the string
 		doc = strings.ReplaceAll(doc, ",", ","+eol)
 		if oneIn(t, 3, "longline") {
